@@ -7,7 +7,7 @@ from awesomeversion import AwesomeVersion
 from voluptuous.humanize import humanize_error
 
 from .const import SYSTEM_CHILD_ID, get_const
-from .message import Message
+from .message import BROADCAST_ID, Message
 from .sensor import Sensor
 from .task import AsyncTasks, SyncTasks
 from .validation import safe_is_version
@@ -139,7 +139,12 @@ class Gateway:
             if not ret:
                 _LOGGER.warning("Child %s is unknown", child_id)
         # "2.0.0" >= "2.0" is False for AwesomeVersion, use not less than.
-        if not ret and not AwesomeVersion(self.protocol_version) < AwesomeVersion("2.0"):
+        # Only a valid node id can be asked to present itself.
+        if (
+            not ret
+            and sensorid in range(BROADCAST_ID + 1)
+            and not AwesomeVersion(self.protocol_version) < AwesomeVersion("2.0")
+        ):
             _LOGGER.info("Requesting new presentation for node %s", sensorid)
             msg = Message(gateway=self).modify(
                 node_id=sensorid,
